@@ -195,7 +195,7 @@ def main(argv=None):
         "obligations": n_ob, "discharged": n_dis, "known_findings": len(by.get("known", [])),
         "inconclusive": len(by.get("inconclusive", [])), "violated": len(violated),
     }
-    if not args.only:
+    if not args.only and not os.environ.get("VERIF_NO_EVIDENCE"):
         cov = {
             "explanation": getattr(mod, "EXPLANATION", "") + "  Deciding step: z3 verdict (unsat) over all real-valued inputs "
             "within the stated bounds on terms produced by running the repository's own functions on symbolic proxies.",
